@@ -1,3 +1,7 @@
--- This module serves as the root of the `SophiaModel` library.
--- Import modules here that should be built as part of the library.
-import SophiaModel.Basic
+import SophiaModel.Basic.Proto
+import SophiaModel.Basic.Term
+import SophiaModel.Regex.Re
+import SophiaModel.Regex.Decide
+import SophiaModel.Regex.Comb
+import SophiaModel.Gen.Regexes
+import SophiaModel.Model.Iri3987
